@@ -63,8 +63,8 @@ def abstract_frame(cond, bv, L):
         # (valid because the interface list has no duplicates: obligation 'no interface listed twice')
         if t[0] == "in" and t[1] == pos and t[2][0] == "map":
             elt, b, it, c = t[2][1:5]
-            if elt == T.call(("m", "index"), (L, b)) and c == T.TRUE:
-                return rules.member(edge, it)
+            if elt == T.call(("m", "index"), (L, b)):
+                return rules.member(edge, it if c == T.TRUE else ("map", b, b, it, c))
         return None
     cond = T.transform(cond, f)
 
